@@ -31,20 +31,24 @@ def unq (s : String) : String := if s == "-" then "" else s
 
 /-- expected facts about conn.go prepareStatement (checked on the AST by the harness) -/
 def astExpect : String :=
-  "closure-adds=1 defer-close-first=true err-assign=4 removes=3 remove-by-key=true waits-done=true waits-ctx=true unprepared-evicts-then-retries=true"
+  "closure-adds=1 defer-close-first=true err-assign=4 removes=3 remove-by-key=true waits-done=true waits-ctx=true unprepared-evicts-then-retries=true spawn-follows-publish=true"
 
 
 /-! ### session tier: observed histories of real Sessions, judged by the observable-level specification `Obs`
 
   trace <ev> <ev> ...        → accept | reject:<index>:<event>:<clause>
+  traceU <ev> <ev> ...       the same for a Session whose statement cache cannot purge for capacity (MaxPreparedStmts 0
+                             or at least the number of distinct keys): every R must be justified (`Obs.justified`)
   events (no blanks inside):
     S:<c>:<q|b>:<key>/<nvals>,...        call c starts (query / batch), entries
     P:<f>:<key>:ok/<idhex>/<ncols>       the server received PREPARE number f of <key> and answers PREPARED
     P:<f>:<key>:err                      ... answers with an error
     R:<key>:<f>                          flight f left the statement cache (OnEvicted)
     X:<c>:<idhex>,...:<ok|err|un/<idhex>> the server received call c's EXECUTE / BATCH with these ids and answers
-    T:<c>:<ok|xe|ce|pe/<f>>              call c returned: success, the server's execute error, value-count error,
-                                         the failure of PREPARE f
+    T:<c>:<ok|xe|ce|pe/<f>|ctx>          call c returned: success, the server's execute error, value-count error,
+                                         the failure of PREPARE f, its own context error (Canceled / DeadlineExceeded)
+    K:<c>                                the context of call c is done from here on (logged BEFORE cancelling; for a
+                                         deadline context: when it is armed)
     H:<c>                                watchdog: call c did not return, a goroutine is blocked inside gocql
     L:<c>                                call c keeps re-sending frames without the re-PREPAREs that UNPREPARED answers
                                          must cause (more frames than 20 + 3·(PREPAREs + scripted losses so far))
@@ -89,8 +93,10 @@ def parseEv (w : String) : Option (PConn.Ev String) :=
     | some c, ["ok"] => some (.ret c .ok)
     | some c, ["xe"] => some (.ret c .execErr)
     | some c, ["ce"] => some (.ret c .countErr)
+    | some c, ["ctx"] => some (.ret c .ctxErr)
     | some c, ["pe", f] => f.toNat?.map fun f => .ret c (.prepErr f)
     | _, _ => none
+  | ["K", c] => c.toNat?.map .cancel
   | ["H", c] => c.toNat?.map .hang
   | ["L", c] => c.toNat?.map .hang
   | ["C"] => some .crash
@@ -102,19 +108,21 @@ def why (o : Obs.OState String) : PConn.Ev String → String
     if c ≠ o.callers.length then "call-number-out-of-order" else if es = [] then "no-entries" else "?"
   | .prep f k _ =>
     if o.credit k = 0 then "second-PREPARE-while-the-statement-is-cached(single-flight)"
-    else if !(o.callers.any fun cl => cl.pc.live && Obs.hasKey cl.entries k) then "PREPARE-without-an-execution-of-that-statement"
+    else if !(o.callers.any fun cl => (cl.pc.live || cl.pc.gaveUp) && Obs.hasKey cl.entries k) then "PREPARE-without-an-execution-of-that-statement"
     else match o.flights f with
       | some fl => if fl.key ≠ k then "flight-of-another-key" else "PREPARE-number-reused"
       | none => "?"
   | .rm k f =>
-    match o.flights f with
+    if o.strict && !Obs.justified o k f then
+      "entry-removed-although-its-PREPARE-neither-failed-nor-was-answered-UNPREPARED(cache-cannot-purge-for-capacity)"
+    else match o.flights f with
     | some fl => if fl.key ≠ k then "removed-under-another-key" else "flight-removed-twice"
     | none => "?"
   | .exec c ids _ =>
     match o.callers[c]? with
     | none => "unknown-call"
     | some cl =>
-      if !cl.pc.live then "frame-from-a-call-that-is-not-running"
+      if !cl.pc.live && cl.pc != .abandoned true then "frame-from-a-call-that-is-not-running"
       else if ids.length ≠ cl.entries.length then "number-of-ids"
       else "id-not-returned-by-a-current-PREPARE-of-that-statement-on-that-host-with-that-many-columns(id-belongs/value-count)"
   | .ret c out =>
@@ -125,6 +133,9 @@ def why (o : Obs.OState String) : PConn.Ev String → String
       | .ok => "ok-without-an-ok-answer"
       | .execErr => "execute-error-without-such-an-answer"
       | .countErr => "value-count-error-without-a-mismatching-PREPARE"
+      | .ctxErr =>
+        if !cl.pc.running then "context-error-from-a-call-that-is-not-running"
+        else "context-error-returned-to-a-call-whose-context-is-not-done"
       | .prepErr f =>
         if !cl.pc.live then "prepare-error-from-a-call-that-is-not-running"
         else if cl.banned f then "failure-served-from-cache(reported-to-a-call-that-began-after-it-was-known)"
@@ -136,15 +147,16 @@ def why (o : Obs.OState String) : PConn.Ev String → String
             else "failure-of-another-statement"
   | .crash => "panic-inside-gocql"
   | .hang _ => "execution-never-returned(every-frame-answered;goroutine-blocked-inside-gocql)"
+  | .cancel _ => "context-of-an-unknown-call"
 
-def judge (ws : List String) : String :=
+def judge (strict : Bool) (ws : List String) : String :=
   match ws.mapM parseEv with
   | none =>
     match ws.find? (fun w => (parseEv w).isNone) with
     | some w => "reject:event-outside-the-specification:" ++ w
     | none => "reject:unparsable"
   | some evs =>
-    match Obs.firstReject Obs.init evs 0 with
+    match Obs.firstReject (Obs.initB strict) evs 0 with
     | none => "accept"
     | some (i, o) =>
       let w := ws.getD i "?"
@@ -175,6 +187,8 @@ def showEvW : PConn.Ev String → String
   | .ret c .execErr => s!"T:{c}:xe"
   | .ret c .countErr => s!"T:{c}:ce"
   | .ret c (.prepErr f) => s!"T:{c}:pe/{f}"
+  | .ret c .ctxErr => s!"T:{c}:ctx"
+  | .cancel c => s!"K:{c}"
   | .crash => "C"
   | .hang c => s!"H:{c}"
 
@@ -233,6 +247,9 @@ def Seq.callLoop (c : Nat) : Nat → Seq → Seq
     | some cl =>
       match cl.pc with
       | .returned => q
+      | .abandoned => q
+      | .lagging => q
+      | .won _ => Seq.callLoop c fuel (q.act (.spawn c))
       | .start =>
         match cl.entries[cl.got.length]? with
         | none => { q with bad := some "no-entry" }
@@ -254,7 +271,7 @@ def Seq.callLoop (c : Nat) : Nat → Seq → Seq
               | _ =>
                 let id := if q2.stable then ascii ("S" ++ pad st 2) else ascii ("s" ++ pad st 2 ++ "n" ++ pad serial 4)
                 (some (id, q2.cols.getD st 0), (hh, id) :: q2.reg)
-            let q3 := { q2 with pf := q2.pf.drop 1, reg := ans.2, nprep := serial + 1 }.act (.srvPrepare f ans.1)
+            let q3 := { q2 with pf := q2.pf.drop 1, reg := ans.2, nprep := serial + 1 }.act (.spawn c) |>.act (.srvPrepare f ans.1)
             Seq.callLoop c fuel (q3.act (.complete f))
       | .waiting f =>
         let (hh, _) := keyParts ((cl.entries.headD ("", 0)).1)
@@ -351,7 +368,8 @@ def step (s : St) (ws : List String) : St × String :=
     let p := s.prep
     ({ s with prep := { p with cache := { p.cache with items := [] } } }, "ev=" ++ showEvN p.cache.items.reverse)
   | ["ast", "prepareStatement"] => (s, astExpect)
-  | "trace" :: evs => (s, judge evs)
+  | "trace" :: evs => (s, judge false evs)
+  | "traceU" :: evs => (s, judge true evs)
   | "seq" :: rest => (s, runSeq rest)
   | ["cachelen", cp, mx] =>
     -- C14_lru_refines_map: len ≤ cap for cap > 0 (0 = unbounded)
